@@ -1,4 +1,5 @@
 """C06 — committed offsets are marked offsets, and no mark is lost (offset_manager.go)."""
+from decgen_tie import run_decgen
 
 
 def run(c):
@@ -13,9 +14,14 @@ def run(c):
     c.assume("a commit that fails at connection level was applied by the coordinator before the failure is observed, or never (no late application)")
     c.assume("the coordinator stores exactly the blocks it answers with error code 0; no other writer to the group's offsets")
     c.assume("loops over partitions in constructRequest/handleResponse/releasePOMs are treated as atomic (they take one partition lock at a time and application calls touch one partition)")
+    # coq/C06/*.v + Properties/C06.v; C06/TieGen.v requires Gen/DecC06.vo (golden) and Gen/{GoInt,DecTypes}.vo, which make
+    # builds as dependencies (the other groups' goldens under coq/Gen are not touched)
     if not c.coq_make():
         return
     c.coq_properties()
+    # regeneration tie: MarkOffset / ResetOffset / updateCommitted / NextOffset / handleResponse's verdict switch are translated
+    # from the tree under test and proved equal to the golden coq/Gen/DecC06.v, which C06/TieGen.v (c06_tie_*) ties to the model
+    run_decgen(c, "C06")
     b = c.go_build("c06corr")
     if not b:
         return
